@@ -40,6 +40,40 @@ Proof.
   rewrite <- !app_assoc. auto.
 Qed.
 
+(** ** Observations of a token that do not look at the spelling of a keyword *)
+(** an unquoted word that is a keyword *)
+Definition kw_word (t : token) : bool :=
+  match t with TWord _ None k => negb (str_eqb k no_keyword) | _ => false end.
+(** a token one may compare the cursor token with ([Token]'s [==]) without observing the
+    spelling of a keyword occurrence: anything but an unquoted keyword word *)
+Definition cmp_safe (e : token) : bool := negb (kw_word e).
+(** equal tokens, or two spellings (equal up to ASCII case) of the same unquoted keyword *)
+Definition token_recase (a b : token) : Prop :=
+  a = b \/ exists v v' k, a = TWord v None k /\ b = TWord v' None k /\ str_eqb k no_keyword = false /\ ascii_ci_eq v v'.
+
+Lemma token_recase_refl a : token_recase a a.
+Proof. left. reflexivity. Qed.
+Lemma recase_kw_of a b : token_recase a b -> kw_of a = kw_of b.
+Proof. intros [->|(v & v' & k & -> & -> & _)]; reflexivity. Qed.
+Lemma recase_is_term r a b : token_recase a b -> is_term r a = is_term r b.
+Proof. intros [->|(v & v' & k & -> & -> & _)]; reflexivity. Qed.
+Lemma recase_is_actions_term a b : token_recase a b -> is_actions_term a = is_actions_term b.
+Proof. intros [->|(v & v' & k & -> & -> & _)]; reflexivity. Qed.
+Lemma recase_cmp e a b : cmp_safe e = true -> token_recase a b -> token_eqb a e = token_eqb b e.
+Proof.
+  intros He [->|(v & v' & k & -> & -> & Hk & _)]; [reflexivity|].
+  destruct e as [| |ve qe ke| | |]; cbn [token_eqb]; try reflexivity.
+  destruct qe as [q|]; cbn [optN_eqb]; [rewrite !andb_false_r; reflexivity|].
+  unfold cmp_safe, kw_word in He. apply negb_true_iff, negb_false_iff in He. apply str_eqb_eq in He. subst ke.
+  rewrite Hk, !andb_false_r. reflexivity.
+Qed.
+Lemma recase_is_ws a b : token_recase a b -> (match a with TWs _ => true | _ => false end) = (match b with TWs _ => true | _ => false end).
+Proof. intros [->|(v & v' & k & -> & -> & _)]; reflexivity. Qed.
+(** a [match] that only separates EOF / words (by keyword) / the rest *)
+Lemma recase_match_eof {X} a b (x y : X) : token_recase a b ->
+  match a with TEOF => x | _ => y end = match b with TEOF => x | _ => y end.
+Proof. intros [->|(v & v' & k & -> & -> & _)]; reflexivity. Qed.
+
 Definition opt_rel {A} (R : A -> A -> Prop) (o o' : option A) : Prop :=
   match o, o' with Some a, Some a' => R a a' | None, None => True | _, _ => False end.
 
@@ -115,9 +149,12 @@ Section Rel.
   (** * What an instance has to establish about the primitives *)
   Variable Rt : twl -> twl -> Prop.       (* tokens returned by the cursor *)
   Variable Ri : nat -> nat -> Prop.       (* saved indices *)
+  Variable cmp_ok : token -> bool.        (* tokens the cursor token may be compared with *)
 
   Record Facts : Prop := {
-    f_tok : forall t t', Rt t t' -> tok t = tok t';
+    f_obs : forall t t', Rt t t' -> token_recase (tok t) (tok t');
+    f_cmp : forall e t t', cmp_ok e = true -> Rt t t' -> token_eqb (tok t) e = token_eqb (tok t') e;
+    f_cmp_punct : forall p, cmp_ok (TP p) = true;
     f_peek : forall n, Rel Rt (peek_nth_token n) (peek_nth_token n);
     f_next : Rel Rt next_token next_token;
     f_prev : Rel eq prev_token prev_token;
@@ -154,7 +191,9 @@ Section Rel.
   Proof. intro H. apply rel_fail. apply (f_expected F). exact H. Qed.
 
   Lemma is_kw_sim k t t' : Rt t t' -> is_kw k t = is_kw k t'.
-  Proof. intro H. unfold is_kw. rewrite (f_tok F t t' H). reflexivity. Qed.
+  Proof. intro H. unfold is_kw. destruct (f_obs F t t' H) as [->|(v & v' & k0 & -> & -> & _)]; reflexivity. Qed.
+  Lemma is_term_sim r t t' : Rt t t' -> is_term r (tok t) = is_term r (tok t').
+  Proof. intro H. apply recase_is_term. apply (f_obs F). exact H. Qed.
 
   Lemma rel_parse_keyword k : Rel eq (parse_keyword k) (parse_keyword k).
   Proof.
@@ -173,9 +212,12 @@ Section Rel.
   Lemma rel_one_of ks : Rel eq (parse_one_of_keywords ks) (parse_one_of_keywords ks).
   Proof.
     unfold parse_one_of_keywords. eapply rel_bind; [apply rel_peek|]. intros t t' Ht.
-    rewrite (f_tok F t t' Ht). destruct (tok t'); try (apply rel_ret; reflexivity).
-    destruct (find _ ks); [|apply rel_ret; reflexivity].
-    eapply rel_bind_unit; [apply (f_next F)|apply rel_ret; reflexivity].
+    assert (G : forall k', Rel eq (match find (fun k => str_eqb k k') ks with Some k => next_token ;;; ret (Some k) | None => ret None end)
+                               (match find (fun k => str_eqb k k') ks with Some k => next_token ;;; ret (Some k) | None => ret None end)).
+    { intro k'. destruct (find _ ks); [|apply rel_ret; reflexivity].
+      eapply rel_bind_unit; [apply (f_next F)|apply rel_ret; reflexivity]. }
+    destruct (f_obs F t t' Ht) as [->|(v & v' & k0 & -> & -> & _)]; [|apply G].
+    destruct (tok t'); try (apply rel_ret; reflexivity). apply G.
   Qed.
   Lemma rel_expect_keyword k : Rel eq (expect_keyword k) (expect_keyword k).
   Proof.
@@ -187,30 +229,31 @@ Section Rel.
     induction ks; cbn [expect_keywords]; [apply rel_ret; reflexivity|].
     eapply rel_bind_unit; [apply rel_expect_keyword|exact IHks].
   Qed.
-  Lemma rel_consume_token e : Rel eq (consume_token e) (consume_token e).
+  Lemma rel_consume_token e : cmp_ok e = true -> Rel eq (consume_token e) (consume_token e).
   Proof.
-    unfold consume_token. eapply rel_bind; [apply rel_peek|]. intros t t' Ht.
-    rewrite (f_tok F t t' Ht). apply rel_if; [|apply rel_ret; reflexivity].
+    intro He. unfold consume_token. eapply rel_bind; [apply rel_peek|]. intros t t' Ht.
+    rewrite (f_cmp F e t t' He Ht). apply rel_if; [|apply rel_ret; reflexivity].
     eapply rel_bind_unit; [apply (f_next F)|apply rel_ret; reflexivity].
   Qed.
-  Lemma rel_consume_tokens_from ts i i' : Ri i i' -> Rel eq (consume_tokens_from ts i) (consume_tokens_from ts i').
+  Lemma rel_consume_tokens_from ts i i' : forallb cmp_ok ts = true -> Ri i i' -> Rel eq (consume_tokens_from ts i) (consume_tokens_from ts i').
   Proof.
-    intro Hi. induction ts as [|t r IH]; cbn [consume_tokens_from]; [apply rel_ret; reflexivity|].
-    eapply rel_bind; [apply rel_consume_token|]. intros b b' <-. destruct b; [exact IH|].
+    intros Hts Hi. induction ts as [|t r IH]; cbn [consume_tokens_from]; [apply rel_ret; reflexivity|].
+    cbn [forallb] in Hts. apply andb_true_iff in Hts as [Ht Hr].
+    eapply rel_bind; [apply rel_consume_token; exact Ht|]. intros b b' <-. destruct b; [apply IH; exact Hr|].
     eapply rel_bind_unit; [apply (f_put_idx F); exact Hi|apply rel_ret; reflexivity].
   Qed.
-  Lemma rel_consume_tokens ts : Rel eq (consume_tokens ts) (consume_tokens ts).
-  Proof. unfold consume_tokens. eapply rel_bind; [apply (f_get_idx F)|]. intros. apply rel_consume_tokens_from. assumption. Qed.
-  Lemma rel_expect_token e : Rel eq (expect_token e) (expect_token e).
+  Lemma rel_consume_tokens ts : forallb cmp_ok ts = true -> Rel eq (consume_tokens ts) (consume_tokens ts).
+  Proof. intro H. unfold consume_tokens. eapply rel_bind; [apply (f_get_idx F)|]. intros. apply rel_consume_tokens_from; assumption. Qed.
+  Lemma rel_expect_token e : cmp_ok e = true -> Rel eq (expect_token e) (expect_token e).
   Proof.
-    unfold expect_token. eapply rel_bind; [apply rel_consume_token|]. intros b b' <-.
+    intro He. unfold expect_token. eapply rel_bind; [apply rel_consume_token; exact He|]. intros b b' <-.
     destruct b; [apply rel_ret; reflexivity|]. eapply rel_bind; [apply rel_peek|]. intros. apply rel_expected. assumption.
   Qed.
-  Lemma rel_peek_two a b : Rel eq (peek_two_are a b) (peek_two_are a b).
+  Lemma rel_peek_two a b : cmp_ok a = true -> cmp_ok b = true -> Rel eq (peek_two_are a b) (peek_two_are a b).
   Proof.
-    unfold peek_two_are. eapply rel_bind; [apply (f_peek F)|]. intros x x' Hx.
+    intros Ha Hb. unfold peek_two_are. eapply rel_bind; [apply (f_peek F)|]. intros x x' Hx.
     eapply rel_bind; [apply (f_peek F)|]. intros y y' Hy.
-    rewrite (f_tok F _ _ Hx), (f_tok F _ _ Hy). apply rel_ret. reflexivity.
+    rewrite (f_cmp F a _ _ Ha Hx), (f_cmp F b _ _ Hb Hy). apply rel_ret. reflexivity.
   Qed.
 
   (** Speculation: no side condition here — both runs see errors of the same kind. *)
@@ -255,12 +298,12 @@ Section Rel.
 
   Lemma rel_is_end : Rel eq is_end is_end.
   Proof.
-    unfold is_end. eapply rel_bind; [apply rel_consume_token|]. intros c c' <-.
+    unfold is_end. eapply rel_bind; [apply rel_consume_token; apply (f_cmp_punct F)|]. intros c c' <-.
     destruct c; cbn [negb]; [|apply rel_ret; reflexivity].
     eapply rel_bind; [apply rel_get_tc|]. intros b b' <-. destruct b; [|apply rel_ret; reflexivity].
     eapply rel_bind; [apply rel_peek|]. intros t t' Ht.
     eapply rel_bind; [apply rel_ask_reserved|]. intros r r' <-.
-    rewrite (f_tok F t t' Ht). apply rel_ret. reflexivity.
+    rewrite (is_term_sim r t t' Ht). apply rel_ret. reflexivity.
   Qed.
   Lemma rel_comma_sep A (RA : A -> A -> Prop) n f f' :
     Rel RA f f' -> Rel (Forall2 RA) (comma_sep n f) (comma_sep n f').
@@ -272,14 +315,14 @@ Section Rel.
     eapply rel_bind; [exact IH|]. intros xs xs' Hxs. apply rel_ret. auto.
   Qed.
   Lemma rel_comma_sep0 A (RA : A -> A -> Prop) n f f' t :
-    Rel RA f f' -> Rel (Forall2 RA) (comma_sep0 n f t) (comma_sep0 n f' t).
+    cmp_ok t = true -> Rel RA f f' -> Rel (Forall2 RA) (comma_sep0 n f t) (comma_sep0 n f' t).
   Proof.
-    intro Hf. unfold comma_sep0. eapply rel_bind; [apply rel_peek|]. intros t0 t0' Ht.
-    rewrite (f_tok F _ _ Ht). destruct (token_eqb _ _); [apply rel_ret; auto|].
+    intros Hc Hf. unfold comma_sep0. eapply rel_bind; [apply rel_peek|]. intros t0 t0' Ht.
+    rewrite (f_cmp F t _ _ Hc Ht). destruct (token_eqb _ _); [apply rel_ret; auto|].
     eapply rel_bind; [apply rel_get_tc|]. intros b b' <-.
-    eapply rel_bind; [apply rel_peek_two|]. intros two two' <-.
+    eapply rel_bind; [apply rel_peek_two; [apply (f_cmp_punct F)|exact Hc]|]. intros two two' <-.
     destruct (b && two).
-    - eapply rel_bind_unit; [apply rel_consume_token|apply rel_ret; auto].
+    - eapply rel_bind_unit; [apply rel_consume_token; apply (f_cmp_punct F)|apply rel_ret; auto].
     - apply rel_comma_sep. exact Hf.
   Qed.
   Lemma rel_kw_sep A (RA : A -> A -> Prop) n k f f' :
@@ -293,19 +336,19 @@ Section Rel.
   Qed.
   Lemma rel_parenthesized A (RA : A -> A -> Prop) f f' : Rel RA f f' -> Rel RA (parenthesized f) (parenthesized f').
   Proof.
-    intro Hf. unfold parenthesized. eapply rel_bind_unit; [apply rel_expect_token|].
+    intro Hf. unfold parenthesized. eapply rel_bind_unit; [apply rel_expect_token; apply (f_cmp_punct F)|].
     eapply rel_bind; [exact Hf|]. intros r r' Hr.
-    eapply rel_bind_unit; [apply rel_expect_token|apply rel_ret; exact Hr].
+    eapply rel_bind_unit; [apply rel_expect_token; apply (f_cmp_punct F)|apply rel_ret; exact Hr].
   Qed.
   Lemma rel_actions_list A (RA : A -> A -> Prop) n f f' :
     Rel RA f f' -> Rel (Forall2 RA) (actions_list n f) (actions_list n f').
   Proof.
     intro Hf. induction n as [|n IH]; cbn [actions_list]; [apply rel_diverge|].
     eapply rel_bind; [exact Hf|]. intros x x' Hx.
-    eapply rel_bind; [apply rel_consume_token|]. intros c c' <-.
+    eapply rel_bind; [apply rel_consume_token; apply (f_cmp_punct F)|]. intros c c' <-.
     destruct c; cbn [negb]; [|apply rel_ret; auto].
     eapply rel_bind; [apply rel_get_tc|]. intros b b' <-. destruct b.
-    - eapply rel_bind; [apply rel_peek|]. intros t t' Ht. rewrite (f_tok F _ _ Ht).
+    - eapply rel_bind; [apply rel_peek|]. intros t t' Ht. rewrite (recase_is_actions_term _ _ (f_obs F _ _ Ht)).
       destruct (is_actions_term _); [apply rel_ret; auto|].
       eapply rel_bind; [exact IH|]. intros xs xs' Hxs. apply rel_ret. auto.
     - eapply rel_bind; [exact IH|]. intros xs xs' Hxs. apply rel_ret. auto.
@@ -317,7 +360,7 @@ Section Rel.
   Lemma rel_skip_semis n : Rel eq (skip_semis n) (skip_semis n).
   Proof.
     induction n as [|n IH]; cbn [skip_semis]; [apply rel_diverge|].
-    eapply rel_bind; [apply rel_consume_token|]. intros b b' <-. destruct b; [exact IH|apply rel_ret; reflexivity].
+    eapply rel_bind; [apply rel_consume_token; apply (f_cmp_punct F)|]. intros b b' <-. destruct b; [exact IH|apply rel_ret; reflexivity].
   Qed.
 
   (** [skip_all_semis] takes its loop bound from the length of the token vector, which the two
@@ -334,10 +377,10 @@ Section Rel.
     Rel (Forall2 RA) (statements_loop n stmt e acc) (statements_loop n stmt' e acc').
   Proof.
     intro Hs. induction n as [|n IH]; intros e acc acc' Hacc; cbn [statements_loop]; [apply rel_diverge|].
-    eapply rel_bind; [apply rel_peek|]. intros t0 t0' Ht0. rewrite (f_tok F _ _ Ht0).
+    eapply rel_bind; [apply rel_peek|]. intros t0 t0' Ht0. rewrite (f_cmp F _ _ _ (f_cmp_punct F PSemi) Ht0).
     eapply rel_bind_unit; [apply F_skip_all|].
     eapply rel_bind; [apply rel_peek|]. intros t t' Ht.
-    rewrite (is_kw_sim (s2l "END") t t' Ht). rewrite (f_tok F _ _ Ht).
+    rewrite (is_kw_sim (s2l "END") t t' Ht).
     set (e' := if token_eqb (tok t0') (TP PSemi) then false else e).
     assert (G : Rel (Forall2 RA)
                   (if e' && is_kw (s2l "END") t' then ret (rev acc)
@@ -349,6 +392,7 @@ Section Rel.
     { apply rel_if; [apply rel_ret; apply Forall2_rev; exact Hacc|].
       apply rel_if; [apply rel_expected; exact Ht|].
       eapply rel_bind; [exact Hs|]. intros a a' Ha. apply IH. constructor; assumption. }
+    destruct (f_obs F t t' Ht) as [->|(v & v' & k0 & -> & -> & _)]; [|exact G].
     destruct (tok t'); try exact G. apply rel_ret. apply Forall2_rev. exact Hacc.
   Qed.
   Lemma rel_parse_statements A (RA : A -> A -> Prop) n stmt stmt' :
@@ -356,33 +400,33 @@ Section Rel.
   Proof. intro. apply rel_statements_loop; [assumption|constructor]. Qed.
 
   (** * All pairs of programs built alike from the interface (no raw, non-skipping access) *)
-  Inductive IfaceR : forall A, (A -> A -> Prop) -> M A -> M A -> Prop :=
-  | R_ret A (RA : A -> A -> Prop) a a' : RA a a' -> IfaceR A RA (ret a) (ret a')
-  | R_fail A (RA : A -> A -> Prop) e : IfaceR A RA (fail e) (fail e)
-  | R_expected A (RA : A -> A -> Prop) what t t' : Rt t t' -> IfaceR A RA (expected what t) (expected what t')
-  | R_diverge A (RA : A -> A -> Prop) : IfaceR A RA diverge diverge
-  | R_conseq A (RA RB : A -> A -> Prop) p p' : (forall a a', RA a a' -> RB a a') -> IfaceR A RA p p' -> IfaceR A RB p p'
+  Inductive IfaceRC : forall A, (A -> A -> Prop) -> M A -> M A -> Prop :=
+  | R_ret A (RA : A -> A -> Prop) a a' : RA a a' -> IfaceRC A RA (ret a) (ret a')
+  | R_fail A (RA : A -> A -> Prop) e : IfaceRC A RA (fail e) (fail e)
+  | R_expected A (RA : A -> A -> Prop) what t t' : Rt t t' -> IfaceRC A RA (expected what t) (expected what t')
+  | R_diverge A (RA : A -> A -> Prop) : IfaceRC A RA diverge diverge
+  | R_conseq A (RA RB : A -> A -> Prop) p p' : (forall a a', RA a a' -> RB a a') -> IfaceRC A RA p p' -> IfaceRC A RB p p'
   | R_bind A B RA RB p p' k k' :
-      IfaceR A RA p p' -> (forall a a', RA a a' -> IfaceR B RB (k a) (k' a')) -> IfaceR B RB (bind p k) (bind p' k')
-  | R_peek_nth n : IfaceR _ Rt (peek_nth_token n) (peek_nth_token n)
-  | R_next : IfaceR _ Rt next_token next_token
-  | R_prev : IfaceR _ eq prev_token prev_token
-  | R_parse_keywords ks : IfaceR _ eq (parse_keywords ks) (parse_keywords ks)
-  | R_consume_tokens ts : IfaceR _ eq (consume_tokens ts) (consume_tokens ts)
-  | R_maybe A RA rr f f' : IfaceR A RA f f' -> IfaceR _ (opt_rel RA) (maybe_with rr f) (maybe_with rr f')
-  | R_guard A RA p p' : IfaceR A RA p p' -> IfaceR A RA (guard p) (guard p')
-  | R_with_state A RA st f f' : IfaceR A RA f f' -> IfaceR A RA (with_state st f) (with_state st f')
-  | R_with_projection_tc A RA f f' : IfaceR A RA f f' -> IfaceR A RA (with_projection_tc f) (with_projection_tc f')
-  | R_is_end : IfaceR _ eq is_end is_end
-  | R_comma_sep A RA n f f' : IfaceR A RA f f' -> IfaceR _ (Forall2 RA) (comma_sep n f) (comma_sep n f')
-  | R_comma_sep0 A RA n f f' t : IfaceR A RA f f' -> IfaceR _ (Forall2 RA) (comma_sep0 n f t) (comma_sep0 n f' t)
-  | R_kw_sep A RA n k f f' : IfaceR A RA f f' -> IfaceR _ (Forall2 RA) (kw_sep n k f) (kw_sep n k f')
-  | R_actions_list A RA n f f' : IfaceR A RA f f' -> IfaceR _ (Forall2 RA) (actions_list n f) (actions_list n f')
-  | R_parse_statements A RA n f f' : IfaceR A RA f f' -> IfaceR _ (Forall2 RA) (parse_statements n f) (parse_statements n f')
-  | R_dialect_is ids : IfaceR _ eq (dialect_is ids) (dialect_is ids)
-  | R_ask_flag n : IfaceR _ eq (ask_flag n) (ask_flag n).
+      IfaceRC A RA p p' -> (forall a a', RA a a' -> IfaceRC B RB (k a) (k' a')) -> IfaceRC B RB (bind p k) (bind p' k')
+  | R_peek_nth n : IfaceRC _ Rt (peek_nth_token n) (peek_nth_token n)
+  | R_next : IfaceRC _ Rt next_token next_token
+  | R_prev : IfaceRC _ eq prev_token prev_token
+  | R_parse_keywords ks : IfaceRC _ eq (parse_keywords ks) (parse_keywords ks)
+  | R_consume_tokens ts : forallb cmp_ok ts = true -> IfaceRC _ eq (consume_tokens ts) (consume_tokens ts)
+  | R_maybe A RA rr f f' : IfaceRC A RA f f' -> IfaceRC _ (opt_rel RA) (maybe_with rr f) (maybe_with rr f')
+  | R_guard A RA p p' : IfaceRC A RA p p' -> IfaceRC A RA (guard p) (guard p')
+  | R_with_state A RA st f f' : IfaceRC A RA f f' -> IfaceRC A RA (with_state st f) (with_state st f')
+  | R_with_projection_tc A RA f f' : IfaceRC A RA f f' -> IfaceRC A RA (with_projection_tc f) (with_projection_tc f')
+  | R_is_end : IfaceRC _ eq is_end is_end
+  | R_comma_sep A RA n f f' : IfaceRC A RA f f' -> IfaceRC _ (Forall2 RA) (comma_sep n f) (comma_sep n f')
+  | R_comma_sep0 A RA n f f' t : cmp_ok t = true -> IfaceRC A RA f f' -> IfaceRC _ (Forall2 RA) (comma_sep0 n f t) (comma_sep0 n f' t)
+  | R_kw_sep A RA n k f f' : IfaceRC A RA f f' -> IfaceRC _ (Forall2 RA) (kw_sep n k f) (kw_sep n k f')
+  | R_actions_list A RA n f f' : IfaceRC A RA f f' -> IfaceRC _ (Forall2 RA) (actions_list n f) (actions_list n f')
+  | R_parse_statements A RA n f f' : IfaceRC A RA f f' -> IfaceRC _ (Forall2 RA) (parse_statements n f) (parse_statements n f')
+  | R_dialect_is ids : IfaceRC _ eq (dialect_is ids) (dialect_is ids)
+  | R_ask_flag n : IfaceRC _ eq (ask_flag n) (ask_flag n).
 
-  Theorem ifaceR_sound A RA p p' : IfaceR A RA p p' -> Rel RA p p'.
+  Theorem ifaceR_sound A RA p p' : IfaceRC A RA p p' -> Rel RA p p'.
   Proof.
     induction 1.
     - apply rel_ret; assumption.
@@ -395,7 +439,7 @@ Section Rel.
     - apply (f_next F).
     - apply (f_prev F).
     - apply rel_parse_keywords.
-    - apply rel_consume_tokens.
+    - apply rel_consume_tokens; assumption.
     - apply rel_maybe; assumption.
     - apply rel_guard; assumption.
     - apply rel_with_state; assumption.
@@ -429,6 +473,18 @@ Section Rel.
     | _ => true
     end.
 
+  (** every token a program compares the cursor token with is admissible *)
+  Fixpoint prog_cmp_ok (p : prog) : bool :=
+    match p with
+    | PConsume t | PExpectTok t => cmp_ok t
+    | PConsumes ts => forallb cmp_ok ts
+    | PCommaSep0 a t => cmp_ok t && prog_cmp_ok a
+    | PSeq a b => prog_cmp_ok a && prog_cmp_ok b
+    | PIf c a b => prog_cmp_ok c && prog_cmp_ok a && prog_cmp_ok b
+    | PMaybe a | PCommaSep a | PKwSep _ a | PParen a | PGuard a | PWithState _ a | PProjection a => prog_cmp_ok a
+    | _ => true
+    end.
+
   Notation RV := (val_rel Rt).
 
   Lemma rel_commit_chain : Rel RV commit_chain commit_chain.
@@ -446,7 +502,7 @@ Section Rel.
   Qed.
   Lemma rel_stmt_probe : Rel RV stmt_probe stmt_probe.
   Proof.
-    unfold stmt_probe. eapply rel_bind; [apply rel_peek|]. intros t t' Ht. rewrite (f_tok F _ _ Ht).
+    unfold stmt_probe. eapply rel_bind; [apply rel_peek|]. intros t t' Ht. rewrite (f_cmp F _ _ _ (f_cmp_punct F PLParen) Ht).
     apply rel_if; [apply rel_ret; constructor|].
     apply rel_guard. eapply rel_bind; [apply (f_next F)|]. intros u u' Hu.
     rewrite (is_kw_sim (s2l "COMMIT") u u' Hu), (is_kw_sim (s2l "END") u u' Hu).
@@ -455,8 +511,9 @@ Section Rel.
   Lemma rel_word_elem : Rel RV word_elem word_elem.
   Proof.
     unfold word_elem. eapply rel_bind; [apply (f_next F)|]. intros t t' Ht.
-    pose proof (f_tok F t t' Ht) as E. destruct (tok t) eqn:E1; rewrite <- E;
-      try (apply rel_expected; exact Ht). apply rel_ret. constructor. exact Ht.
+    destruct (f_obs F t t' Ht) as [E|(v & v' & k0 & E1 & E2 & _)].
+    - rewrite E. destruct (tok t'); try (apply rel_expected; exact Ht). apply rel_ret. constructor. exact Ht.
+    - rewrite E1, E2. apply rel_ret. constructor. exact Ht.
   Qed.
 
   Lemma opt_to_val o o' : opt_rel RV o o' -> RV (VOpt o) (VOpt o').
@@ -464,9 +521,10 @@ Section Rel.
 
   Lemma denote_p_rel rr (self self' : M val) fuel :
     Rel RV self self' ->
-    forall p, raw_ok || skipping_only p = true -> Rel RV (denote_p rr self fuel p) (denote_p rr self' fuel p).
+    forall p, raw_ok || skipping_only p = true -> prog_cmp_ok p = true ->
+              Rel RV (denote_p rr self fuel p) (denote_p rr self' fuel p).
   Proof.
-    intros Hself p. induction p; cbn [denote_p skipping_only]; intro Hok.
+    intros Hself p. induction p; cbn [denote_p skipping_only prog_cmp_ok]; intros Hok Hc.
     - eapply rel_bind; [apply (f_next F)|]. intros. apply rel_ret. constructor. assumption.
     - eapply rel_bind; [apply (f_peek F)|]. intros. apply rel_ret. constructor. assumption.
     - eapply rel_bind_unit; [apply (f_prev F)|apply rel_ret; constructor].
@@ -477,39 +535,59 @@ Section Rel.
     - eapply rel_bind; [apply rel_parse_keywords|]. intros b b' <-. apply rel_ret. constructor.
     - eapply rel_bind; [apply rel_one_of|]. intros o o' <-. apply rel_ret. destruct o; cbn; constructor. constructor.
     - eapply rel_bind_unit; [apply rel_expect_keyword|apply rel_ret; constructor].
-    - eapply rel_bind; [apply rel_consume_token|]. intros b b' <-. apply rel_ret. constructor.
-    - eapply rel_bind; [apply rel_consume_tokens|]. intros b b' <-. apply rel_ret. constructor.
-    - eapply rel_bind_unit; [apply rel_expect_token|apply rel_ret; constructor].
+    - eapply rel_bind; [apply rel_consume_token; exact Hc|]. intros b b' <-. apply rel_ret. constructor.
+    - eapply rel_bind; [apply rel_consume_tokens; exact Hc|]. intros b b' <-. apply rel_ret. constructor.
+    - eapply rel_bind_unit; [apply rel_expect_token; exact Hc|apply rel_ret; constructor].
     - apply rel_fail. apply (f_err_refl F).
     - eapply rel_bind; [apply rel_peek|]. intros. apply rel_expected. assumption.
     - assert (H1 : raw_ok || skipping_only p1 = true) by (destruct raw_ok; cbn in *; auto; apply andb_true_iff in Hok; tauto).
       assert (H2 : raw_ok || skipping_only p2 = true) by (destruct raw_ok; cbn in *; auto; apply andb_true_iff in Hok; tauto).
+      apply andb_true_iff in Hc as [Hc1 Hc2].
       eapply rel_bind_unit; auto.
     - assert (H1 : raw_ok || skipping_only p1 = true) by (destruct raw_ok; cbn in *; auto; apply andb_true_iff in Hok as [Hok _]; apply andb_true_iff in Hok; tauto).
       assert (H2 : raw_ok || skipping_only p2 = true) by (destruct raw_ok; cbn in *; auto; apply andb_true_iff in Hok as [Hok _]; apply andb_true_iff in Hok; tauto).
       assert (H3 : raw_ok || skipping_only p3 = true) by (destruct raw_ok; cbn in *; auto; apply andb_true_iff in Hok; tauto).
-      eapply rel_bind; [apply IHp1; exact H1|]. intros v v' Hv. rewrite (val_rel_truthy _ _ _ Hv).
+      apply andb_true_iff in Hc as [Hc12 Hc3]. apply andb_true_iff in Hc12 as [Hc1 Hc2].
+      eapply rel_bind; [apply IHp1; assumption|]. intros v v' Hv. rewrite (val_rel_truthy _ _ _ Hv).
       apply rel_if; auto.
-    - eapply rel_bind; [apply rel_maybe; apply IHp; exact Hok|]. intros o o' Ho. apply rel_ret. apply opt_to_val. exact Ho.
-    - eapply rel_bind; [apply rel_comma_sep; apply IHp; exact Hok|]. intros. apply rel_ret. constructor. assumption.
-    - eapply rel_bind; [apply rel_comma_sep0; apply IHp; exact Hok|]. intros. apply rel_ret. constructor. assumption.
-    - eapply rel_bind; [apply rel_kw_sep; apply IHp; exact Hok|]. intros. apply rel_ret. constructor. assumption.
-    - apply rel_parenthesized. apply IHp. exact Hok.
+    - eapply rel_bind; [apply rel_maybe; apply IHp; assumption|]. intros o o' Ho. apply rel_ret. apply opt_to_val. exact Ho.
+    - eapply rel_bind; [apply rel_comma_sep; apply IHp; assumption|]. intros. apply rel_ret. constructor. assumption.
+    - apply andb_true_iff in Hc as [Hct Hcp].
+      eapply rel_bind; [apply rel_comma_sep0; [exact Hct|apply IHp; assumption]|]. intros. apply rel_ret. constructor. assumption.
+    - eapply rel_bind; [apply rel_kw_sep; apply IHp; assumption|]. intros. apply rel_ret. constructor. assumption.
+    - apply rel_parenthesized. apply IHp; assumption.
     - apply rel_stmt_probe.
     - rewrite orb_false_r in Hok. unfold stmts_probe. apply (F_lookahead Hok).
       + apply rel_ret. constructor.
       + eapply rel_bind; [apply rel_parse_statements; apply rel_stmt_core|]. intros. apply rel_ret. constructor. assumption.
     - apply rel_word_elem.
-    - apply rel_guard. apply IHp. exact Hok.
-    - apply rel_with_state. apply IHp. exact Hok.
-    - eapply rel_bind; [apply rel_projection; apply IHp; exact Hok|]. intros. apply rel_ret. constructor. assumption.
+    - apply rel_guard. apply IHp; assumption.
+    - apply rel_with_state. apply IHp; assumption.
+    - eapply rel_bind; [apply rel_projection; apply IHp; assumption|]. intros. apply rel_ret. constructor. assumption.
     - exact Hself.
   Qed.
 
   Theorem denote_rel rr fuel p :
-    raw_ok || skipping_only p = true -> Rel RV (denote rr fuel p) (denote rr fuel p).
+    raw_ok || skipping_only p = true -> prog_cmp_ok p = true -> Rel RV (denote rr fuel p) (denote rr fuel p).
   Proof.
-    intro Hok. unfold denote. apply denote_p_rel; [|exact Hok].
+    intros Hok Hc. unfold denote. apply denote_p_rel; [|exact Hok|exact Hc].
     induction fuel; cbn [denote_rec]; [apply rel_diverge|]. apply denote_p_rel; assumption.
   Qed.
 End Rel.
+
+(** With no restriction on comparisons every program passes the comparison test. *)
+Lemma prog_cmp_ok_all p : prog_cmp_ok (fun _ => true) p = true.
+Proof.
+  induction p; cbn [prog_cmp_ok]; auto; try (rewrite ?IHp1, ?IHp2, ?IHp3; reflexivity).
+  induction ts; cbn; auto.
+Qed.
+(** Relations under which related tokens are equal satisfy the observation facts trivially. *)
+Lemma obs_of_tok_eq (Rt : twl -> twl -> Prop) :
+  (forall t t', Rt t t' -> tok t = tok t') ->
+  (forall t t', Rt t t' -> token_recase (tok t) (tok t')) /\
+  (forall e t t', (fun _ : token => true) e = true -> Rt t t' -> token_eqb (tok t) e = token_eqb (tok t') e).
+Proof. intro H. split; intros; [left; auto|rewrite (H t t'); auto]. Qed.
+
+(** The pairs of programs built alike with unrestricted comparisons (the family used by the
+    whitespace, location and dialect instances). *)
+Notation IfaceR Rt := (IfaceRC Rt (fun _ => true)).
